@@ -33,6 +33,9 @@ CHECKS = {
  "C06": ("exploration", "before/after deep state snapshots and SNMP counter deltas at synctest quiescence around single injected datagrams; corruptions built at plaintext level with reference ciphers",
    "Thousands of injections per quick run over all ciphers, both receive paths and all packet kinds; the no-effect oracle compares the complete reachable state by value, so an effect anywhere (decoder, autotune ring, session table, wake-up tokens, counters) is visible.",
    "snapshot exclusion list; reference ciphers", "DESIGN.md §3 C06"),
+ "C11": ("exploration", "multi-peer simulations on one listener socket with per-peer content streams (cross-delivery visible), Accept-multiset oracle over the recorded history, before/after snapshots around injected foreign/stale datagrams",
+   "Held on the multi-peer histories produced (about 2000 accepts and 500 judged injections per quick run).",
+   "content streams are keyed per peer; stale first-datagram histories excluded (see assumptions)", "DESIGN.md §3 C11"),
  "C13": ("exploration", "virtual-time trace monitor: return time and error class of every blocked caller recorded at the API boundary and compared with a reference model of deadline/data/close/error semantics at bubble quiescence after each scripted stimulus",
    "Thousands of scripted interleavings of blocked Read/Write/Accept callers with deadline changes, arrivals, Close and socket errors, judged to the exact virtual millisecond; held on the scripts executed.",
    "synctest virtual time; Go scheduler order inside one instant", "DESIGN.md §3 C13"),
